@@ -76,14 +76,6 @@ Qed.
 Lemma list_prefixb_app a r : list_prefixb a (a ++ r) = true.
 Proof. induction a as [|x a IH]; cbn; [reflexivity|]. rewrite String.eqb_refl. exact IH. Qed.
 
-(* exclusion by components implies exclusion by the code's character-prefix test *)
-Lemma comp_excluded_string ecs cs : comp_excluded ecs cs = true -> string_excluded ecs cs = true.
-Proof.
-  unfold comp_excluded, string_excluded. rewrite !existsb_exists.
-  intros [ec [Hin Hp]]. exists ec. split; [exact Hin|].
-  destruct (list_prefixb_split _ _ Hp) as [r ->]. rewrite render_app. apply prefixb_app.
-Qed.
-
 Lemma str_excluded_render ecs cs :
   str_excluded (map render ecs) (render cs) = string_excluded ecs cs.
 Proof. unfold str_excluded, string_excluded. apply existsb_map'. Qed.
@@ -111,6 +103,118 @@ Proof. intros H. unfold basename. cbn. apply basename_acc_app; exact H. Qed.
 
 Lemma basename_render cs x : noslash x = true -> basename (render (cs ++ [x])) = x.
 Proof. intros H. rewrite render_snoc. apply basename_child; exact H. Qed.
+
+(* ---- the exclusion test on rendered paths is the component-prefix test ---------------------- *)
+(* a path component: no "/" in it, not empty (what os.path.abspath produces) *)
+Definition good (x : string) : Prop := noslash x = true /\ x <> "".
+Definition hd_slash (s : string) : bool :=
+  match s with EmptyString => true | String c _ => Ascii.eqb c "/"%char end.
+
+Lemma hd_slash_render cs : hd_slash (render cs) = true.
+Proof. destruct cs; reflexivity. Qed.
+
+Lemma rstrip_slash_noslash x : noslash x = true -> rstrip_slash x = x.
+Proof.
+  induction x as [|c x IH]; cbn; [reflexivity|]. intros H. apply andb_true_iff in H as [Hc Hx].
+  rewrite (IH Hx). destruct x; [|reflexivity]. destruct (Ascii.eqb c "/"); [discriminate|reflexivity].
+Qed.
+
+Lemma rstrip_slash_app s t : rstrip_slash t <> "" -> rstrip_slash (s ++ t)%string = (s ++ rstrip_slash t)%string.
+Proof.
+  intros Ht. induction s as [|c s IH]; cbn; [reflexivity|]. rewrite IH.
+  destruct (s ++ rstrip_slash t)%string eqn:E; [|reflexivity].
+  exfalso. destruct s; cbn in E; [apply Ht; exact E|discriminate].
+Qed.
+
+Lemma rstrip_slash_render ec : Forall good ec -> rstrip_slash (render ec) = render ec.
+Proof.
+  induction 1 as [|x r [Hx Hne] Hr IH]; [reflexivity|]. cbn [render].
+  destruct r as [|y r].
+  - cbn [render]. rewrite append_nil_r.
+    change ("/" ++ x)%string with (("/")%string ++ x)%string.
+    rewrite rstrip_slash_app; rewrite (rstrip_slash_noslash x Hx); [reflexivity|exact Hne].
+  - rewrite <- append_assoc. rewrite rstrip_slash_app; rewrite IH; [reflexivity|discriminate].
+Qed.
+
+Lemma split_noslash_eq x : forall y s t, noslash x = true -> noslash y = true ->
+  hd_slash s = true -> hd_slash t = true -> (x ++ s)%string = (y ++ t)%string -> x = y /\ s = t.
+Proof.
+  induction x as [|c x IH]; intros y s t Hx Hy Hs Ht E.
+  - destruct y as [|d y]; [auto|]. cbn [append] in E. subst s. cbn [hd_slash noslash] in Hs, Hy.
+    rewrite Hs in Hy. discriminate.
+  - destruct y as [|d y].
+    + cbn [append] in E. subst t. cbn [hd_slash noslash] in Ht, Hx. rewrite Ht in Hx. discriminate.
+    + cbn [append] in E. injection E as -> E. cbn [noslash] in Hx, Hy.
+      apply andb_true_iff in Hx as [_ Hx]. apply andb_true_iff in Hy as [_ Hy].
+      destruct (IH y s t Hx Hy Hs Ht E) as [-> ->]. auto.
+Qed.
+
+Lemma split_noslash_prefix x : forall y s t, noslash x = true -> noslash y = true ->
+  hd_slash t = true -> prefixb (x ++ String "/"%char s)%string (y ++ t)%string = true ->
+  x = y /\ prefixb (String "/"%char s) t = true.
+Proof.
+  induction x as [|c x IH]; intros y s t Hx Hy Ht E.
+  - destruct y as [|d y]; [auto|]. cbn [append prefixb] in E. apply andb_true_iff in E as [E _].
+    apply Ascii.eqb_eq in E. subst d. cbn [noslash] in Hy. rewrite Ascii.eqb_refl in Hy. discriminate.
+  - destruct y as [|d y].
+    + cbn [append] in E. destruct t as [|d t]; [discriminate|]. cbn [prefixb] in E.
+      apply andb_true_iff in E as [E _]. apply Ascii.eqb_eq in E. subst d.
+      cbn [hd_slash noslash] in Ht, Hx. rewrite Ht in Hx. discriminate.
+    + cbn [append prefixb] in E. apply andb_true_iff in E as [E1 E]. apply Ascii.eqb_eq in E1. subst d.
+      cbn [noslash] in Hx, Hy. apply andb_true_iff in Hx as [_ Hx]. apply andb_true_iff in Hy as [_ Hy].
+      destruct (IH y s t Hx Hy Ht E) as [-> H]. auto.
+Qed.
+
+Lemma render_inj a : forall b, Forall (fun x => noslash x = true) a -> Forall (fun x => noslash x = true) b ->
+  render a = render b -> a = b.
+Proof.
+  induction a as [|x a IH]; intros b Ha Hb E.
+  - destruct b; [reflexivity|discriminate].
+  - destruct b as [|y b]; [discriminate|]. cbn [render] in E. injection E as E.
+    inversion Ha; inversion Hb; subst.
+    destruct (split_noslash_eq x y (render a) (render b)) as [-> E']; auto using hd_slash_render.
+    f_equal. apply IH; assumption.
+Qed.
+
+Lemma render_slash_prefix ec : forall cs,
+  Forall (fun x => noslash x = true) ec -> Forall (fun x => noslash x = true) cs ->
+  prefixb (render ec ++ "/")%string (render cs) = true -> list_prefixb ec cs = true.
+Proof.
+  induction ec as [|x ec IH]; intros cs He Hc E; [reflexivity|].
+  destruct cs as [|y cs]; [discriminate|]. cbn [render] in E.
+  rewrite !append_assoc in E. cbn [append prefixb] in E. rewrite Ascii.eqb_refl in E. cbn [andb] in E.
+  inversion He; inversion Hc; subst.
+  assert (exists s, (render ec ++ "/")%string = String "/"%char s) as [s Hs].
+  { destruct ec as [|z ec]; cbn; eauto. }
+  rewrite Hs in E.
+  destruct (split_noslash_prefix x y s (render cs)) as [-> E']; auto using hd_slash_render.
+  cbn [list_prefixb]. rewrite String.eqb_refl. cbn [andb]. apply IH; auto. rewrite Hs. exact E'.
+Qed.
+
+(* on well-formed paths the code's test IS "some excluded path is a prefix by whole components" *)
+Lemma string_comp_excluded ecs cs :
+  Forall (Forall good) ecs -> Forall (fun x => noslash x = true) cs ->
+  string_excluded ecs cs = comp_excluded ecs cs.
+Proof.
+  intros Hg Hc. unfold string_excluded, comp_excluded. apply Bool.eq_iff_eq_true.
+  rewrite !existsb_exists. rewrite Forall_forall in Hg.
+  split; intros [ec [Hin H]]; exists ec; (split; [exact Hin|]); specialize (Hg ec Hin).
+  - assert (Hn : Forall (fun x => noslash x = true) ec).
+    { rewrite Forall_forall in *. intros x Hx. apply (Hg x Hx). }
+    unfold excluded_by in H. rewrite (rstrip_slash_render ec Hg) in H.
+    apply orb_true_iff in H as [H|H].
+    + apply String.eqb_eq in H. apply render_inj in H; auto. subst.
+      rewrite <- (app_nil_r ec) at 2. apply list_prefixb_app.
+    + apply render_slash_prefix; assumption.
+  - unfold excluded_by. rewrite (rstrip_slash_render ec Hg).
+    destruct (list_prefixb_split _ _ H) as [r ->]. destruct r as [|y r].
+    + rewrite app_nil_r, String.eqb_refl. reflexivity.
+    + rewrite render_app. cbn [render]. rewrite <- append_assoc.
+      change (("/" ++ y ++ render r))%string with (String "/"%char (y ++ render r))%string.
+      replace (render ec ++ String "/"%char (y ++ render r))%string
+        with ((render ec ++ "/") ++ (y ++ render r))%string by (rewrite append_assoc; reflexivity).
+      rewrite prefixb_app. apply orb_true_r.
+Qed.
 
 (* ---- trees ------------------------------------------------------------------------------ *)
 Lemma tree_ind' (P : tree -> Prop) :
@@ -442,35 +546,31 @@ Proof.
   intros q x r par c Heq Hp Hc. eapply disqualified_mono; [apply H|]. eapply Hall; eassumption.
 Qed.
 
-(* "no excluded path is a character prefix of the path of a directory of the tree without
-   being a prefix of it by whole components" -- the decidable guard that excludes the
-   name-prefix-sibling defect *)
-Definition aligned (ecs : list (list string)) (bc : list string) (t : tree) : Prop :=
-  forall ec rel d, In ec ecs -> rel <> [] -> subdir t rel = Some d ->
-    prefixb (render ec) (render (bc ++ rel)) = true -> list_prefixb ec (bc ++ rel) = true.
+(* the paths handed to the constructor are well formed (os.path.abspath output) *)
+Definition good_paths (ecs : list (list string)) (bc : list string) : Prop :=
+  Forall (fun x => noslash x = true) bc /\ Forall (Forall good) ecs.
 
-Lemma aligned_excluded ecs bc t rel d :
-  aligned ecs bc t -> rel <> [] -> subdir t rel = Some d ->
-  string_excluded ecs (bc ++ rel) = true -> comp_excluded ecs (bc ++ rel) = true.
+Lemma subdir_noslash rel : forall t d, wf t -> subdir t rel = Some d ->
+  Forall (fun x => noslash x = true) rel.
 Proof.
-  intros Ha Hne Hd. unfold string_excluded, comp_excluded. rewrite !existsb_exists.
-  intros [ec [Hin Hp]]. exists ec. split; [exact Hin|]. eapply Ha; eassumption.
+  induction rel as [|x r IH]; intros t d Hwf Hd; [constructor|].
+  destruct t as [n f subs]. cbn [subdir tsubs] in Hd.
+  destruct (find_child x subs) as [c|] eqn:Ec; [|discriminate].
+  apply find_child_in in Ec as [Hin <-].
+  pose proof (wf_children _ _ _ Hwf) as Hwfs. destruct Hwf as [_ [Hn _]].
+  rewrite Forall_forall in Hwfs, Hn. constructor; [apply Hn; exact Hin|].
+  eapply IH; [apply Hwfs; exact Hin|exact Hd].
 Qed.
 
-Lemma is_root_aligned ecs markers bc t rel :
-  aligned ecs bc t ->
-  is_root (comp_excluded ecs) markers bc t rel -> is_root (string_excluded ecs) markers bc t rel.
+Lemma is_root_agree E1 E2 markers bc t rel :
+  wf t -> Forall (fun x => noslash x = true) bc ->
+  (forall cs, Forall (fun x => noslash x = true) cs -> E1 cs = E2 cs) ->
+  is_root E1 markers bc t rel -> is_root E2 markers bc t rel.
 Proof.
-  intros Ha [Hd Hall]. split; [exact Hd|].
+  intros Hwf Hbc HE [Hd Hall]. split; [exact Hd|].
   intros q x r par c Heq Hp Hc. specialize (Hall q x r par c Heq Hp Hc).
-  unfold disqualified in *.
-  destruct (string_excluded ecs (bc ++ q ++ [x])) eqn:Es.
-  - assert (comp_excluded ecs (bc ++ q ++ [x]) = true) as Ec.
-    { eapply aligned_excluded; [exact Ha| |exact Hc|exact Es]. destruct q; discriminate. }
-    rewrite Ec in Hall. rewrite orb_true_r in Hall. discriminate.
-  - destruct (comp_excluded ecs (bc ++ q ++ [x])) eqn:Ec.
-    + rewrite orb_true_r in Hall. discriminate.
-    + exact Hall.
+  unfold disqualified in *. rewrite <- HE; [exact Hall|].
+  apply Forall_app. split; [exact Hbc|]. eapply subdir_noslash; eassumption.
 Qed.
 
 (* two listings of the same directory tree: at every relative path the same file names
@@ -555,15 +655,16 @@ Section Headline.
     walk_paths (render bc) t (map render ecs) user = map fst (walk (map render ecs) markers true (render bc) t).
   Proof. reflexivity. Qed.
 
-  Theorem discover_sound bc t p : wf t ->
+  Theorem discover_sound bc t p : wf t -> good_paths ecs bc ->
     In p (walk_paths (render bc) t (map render ecs) user) ->
     exists rel, p = render (bc ++ rel) /\ is_root (comp_excluded ecs) markers bc t rel.
   Proof.
-    intros Hwf Hin. rewrite walk_paths_eq in Hin.
+    intros Hwf [Hbc Hg] Hin. rewrite walk_paths_eq in Hin.
     destruct (root_sound ecs markers t bc p Hwf Hin) as [rel [Hp Hr]].
     exists rel. split; [exact Hp|].
-    apply (is_root_mono (string_excluded ecs)); [apply comp_excluded_string|].
-    apply is_root_roots_in. exact Hr.
+    apply (is_root_agree (string_excluded ecs)); auto.
+    - intros cs Hcs. apply string_comp_excluded; assumption.
+    - apply is_root_roots_in. exact Hr.
   Qed.
 
   Theorem discover_exact_string bc t p : wf t -> root_guard ecs markers bc t = true ->
@@ -576,8 +677,8 @@ Section Headline.
     - intros [rel [-> Hr]]. apply root_complete; auto. apply is_root_roots_in. exact Hr.
   Qed.
 
-  (* no guard at all: the walk is the specification, with "inside an excluded path" read by
-     character prefix, applied to the listing the walk descends into *)
+  (* no guard at all: the walk is the specification, with "inside an excluded path" read on
+     the rendered strings as the code reads it, applied to the listing the walk descends into *)
   Theorem discover_exact_general bc t p : wf t ->
     (In p (walk_paths (render bc) t (map render ecs) user) <->
      exists rel, p = render (bc ++ rel) /\
@@ -588,14 +689,16 @@ Section Headline.
   Qed.
 
   Theorem discover_exact_partial bc t p :
-    wf t -> root_guard ecs markers bc t = true -> aligned ecs bc t ->
+    wf t -> good_paths ecs bc -> root_guard ecs markers bc t = true ->
     (In p (walk_paths (render bc) t (map render ecs) user) <->
      exists rel, p = render (bc ++ rel) /\ is_root (comp_excluded ecs) markers bc t rel).
   Proof.
-    intros Hwf Hg Ha. split.
-    - apply discover_sound; exact Hwf.
+    intros Hwf Hgp Hg. split.
+    - apply discover_sound; assumption.
     - intros [rel [Hp Hr]]. apply discover_exact_string; auto.
-      exists rel. split; [exact Hp|]. apply is_root_aligned; assumption.
+      exists rel. split; [exact Hp|]. destruct Hgp as [Hbc Hge].
+      apply (is_root_agree (comp_excluded ecs)); auto.
+      intros cs Hcs. symmetry. apply string_comp_excluded; assumption.
   Qed.
 
   Theorem root_always_eligible bc t :
@@ -769,27 +872,27 @@ End CollectP.
 
 (* ---- SourceRepository(...).get_candidates(None) as a whole ---------------------------------- *)
 Theorem offered_exact_partial ecs user bc t analyse l :
-  wf t -> root_guard ecs (all_markers user) bc t = true -> aligned ecs bc t ->
+  wf t -> good_paths ecs bc -> root_guard ecs (all_markers user) bc t = true ->
   discover (render bc) t (map render ecs) user analyse = Offered l ->
   forall p, In p l <->
     exists rel, p = render (bc ++ rel) /\ is_root (comp_excluded ecs) (all_markers user) bc t rel /\ analyse p = AOk.
 Proof.
-  intros Hwf Hg Ha Hd p. unfold discover in Hd.
+  intros Hwf Ha Hg Hd p. unfold discover in Hd.
   rewrite (sequential_offers analyse _ l Hd p). split.
   - intros [e [He [Hp Hok]]].
     assert (In p (walk_paths (render bc) t (map render ecs) user)) as Hin.
     { unfold walk_paths, all_markers. rewrite <- Hp. apply in_map. exact He. }
-    apply (discover_exact_partial ecs user bc t p Hwf Hg Ha) in Hin as [rel [Hr1 Hr2]].
+    apply (discover_exact_partial ecs user bc t p Hwf Ha Hg) in Hin as [rel [Hr1 Hr2]].
     exists rel. auto.
   - intros [rel [Hp [Hr Hok]]].
     assert (In p (walk_paths (render bc) t (map render ecs) user)) as Hin.
-    { apply (discover_exact_partial ecs user bc t p Hwf Hg Ha). exists rel. auto. }
+    { apply (discover_exact_partial ecs user bc t p Hwf Ha Hg). exists rel. auto. }
     unfold walk_paths in Hin. apply in_map_iff in Hin as [e [He1 He2]]. exists e. auto.
 Qed.
 
 (* ---- full statements that are FALSE of the code, and their witnesses ------------------------ *)
 Definition discover_exact_full_statement : Prop :=
-  forall ecs user bc t p, wf t ->
+  forall ecs user bc t p, wf t -> good_paths ecs bc ->
     (In p (walk_paths (render bc) t (map render ecs) user) <->
      exists rel, p = render (bc ++ rel) /\ is_root (comp_excluded ecs) (all_markers user) bc t rel).
 
@@ -798,28 +901,20 @@ Definition discover_order_free_full_statement : Prop :=
     (In p (walk_paths (render bc) t (map render ecs) user) <->
      In p (walk_paths (render bc) t' (map render ecs) user)).
 
-(* /B/r with two projects excl and excl2; excluding /B/r/excl also loses excl2 *)
+(* /B/r with two projects excl and excl2; excluding /B/r/excl keeps the sibling excl2
+   (before ca4e69e the character-prefix test lost it: the witness of the former
+   prefix_sibling_refuted, corpus/C18/prefix-sibling.json) *)
 Definition w_sibling : tree :=
   Dir "r" [] [Dir "excl" ["setup.cfg"] []; Dir "excl2" ["setup.cfg"] []].
 
-Theorem prefix_sibling_refuted :
-  exists ecs user bc t rel,
-    wf t /\ root_guard ecs (all_markers user) bc t = true /\
-    is_root (comp_excluded ecs) (all_markers user) bc t rel /\
-    ~ In (render (bc ++ rel)) (walk_paths (render bc) t (map render ecs) user).
+Example prefix_sibling_kept :
+  wf w_sibling /\ good_paths [["B"; "r"; "excl"]] ["B"; "r"] /\
+  root_guard [["B"; "r"; "excl"]] (all_markers []) ["B"; "r"] w_sibling = true /\
+  walk_paths (render ["B"; "r"]) w_sibling (map render [["B"; "r"; "excl"]]) [] = ["/B/r/excl2"].
 Proof.
-  exists [["B"; "r"; "excl"]], [], ["B"; "r"], w_sibling, ["excl2"].
-  split; [|split; [|split]].
+  split; [|split; [|split]]; try reflexivity.
   - cbn. repeat split; repeat constructor; cbn; intuition discriminate.
-  - reflexivity.
-  - apply is_root_roots_in. cbn [roots_in]. eexists. split; [reflexivity|]. split; reflexivity.
-  - vm_compute. intuition discriminate.
-Qed.
-
-Lemma discover_exact_full_refuted : ~ discover_exact_full_statement.
-Proof.
-  intros H. destruct prefix_sibling_refuted as [ecs [user [bc [t [rel [Hwf [_ [Hr Hn]]]]]]]].
-  apply Hn. apply (H ecs user bc t _ Hwf). exists rel. auto.
+  - split; repeat constructor; cbn; intuition discriminate.
 Qed.
 
 (* /B/r with marker names MARK and SKIP, both directories of the root: the walk removes
@@ -843,6 +938,30 @@ Proof.
     cbn. repeat constructor; cbn; intuition discriminate.
   - vm_compute. auto.
   - vm_compute. intuition discriminate.
+Qed.
+
+(* the same tree refutes exactness outside root_guard: MARK/p is a project root by path
+   components (the root is exempt from the marker rule) but MARK, listed first, is taken out *)
+Theorem root_marker_dir_lost_refuted :
+  exists ecs user bc t rel,
+    wf t /\ good_paths ecs bc /\ root_guard ecs (all_markers user) bc t = false /\
+    is_root (comp_excluded ecs) (all_markers user) bc t rel /\
+    ~ In (render (bc ++ rel)) (walk_paths (render bc) t (map render ecs) user).
+Proof.
+  exists [], ["MARK"; "SKIP"], ["B"; "r"], w_mark1, ["MARK"; "p"].
+  split; [|split; [|split; [|split]]].
+  - cbn. repeat split; repeat constructor; cbn; intuition discriminate.
+  - split; repeat constructor.
+  - reflexivity.
+  - apply is_root_roots_in. cbn [roots_in]. eexists. split; [reflexivity|]. split; [reflexivity|].
+    eexists. split; [reflexivity|]. split; reflexivity.
+  - vm_compute. intuition discriminate.
+Qed.
+
+Lemma discover_exact_full_refuted : ~ discover_exact_full_statement.
+Proof.
+  intros H. destruct root_marker_dir_lost_refuted as [ecs [user [bc [t [rel [Hwf [Hgp [_ [Hr Hn]]]]]]]]].
+  apply Hn. apply (H ecs user bc t _ Hwf Hgp). exists rel. auto.
 Qed.
 
 Lemma discover_order_free_full_refuted : ~ discover_order_free_full_statement.
@@ -875,30 +994,13 @@ Definition ex_tree : tree :=
      Dir "build" [] [Dir "x" ["setup.py"] []]].
 
 Example ex_guards :
-  wf ex_tree /\ root_guard [["B"; "r"; "lib2"]] (all_markers ["SKIP"]) ["B"; "r"] ex_tree = true /\
-  aligned [["B"; "r"; "lib2"]] ["B"; "r"] ex_tree /\
-  walk_paths "/B/r" ex_tree ["/B/r/lib2"] ["SKIP"] = ["/B/r"; "/B/r/lib"; "/B/r/lib/sub"].
+  wf ex_tree /\ good_paths [["B"; "r"; "lib"]] ["B"; "r"] /\
+  root_guard [["B"; "r"; "lib"]] (all_markers ["SKIP"]) ["B"; "r"] ex_tree = true /\
+  walk_paths "/B/r" ex_tree ["/B/r/lib"] ["SKIP"] = ["/B/r"; "/B/r/lib2"].
 Proof.
-  split; [|split; [|split]].
+  split; [|split; [|split]]; try reflexivity.
   - cbn. repeat split; repeat constructor; cbn; intuition discriminate.
-  - reflexivity.
-  - intros ec rel d [<-|[]] Hne Hd Hp.
-    destruct rel as [|a rel]; [congruence|].
-    cbn [app render] in Hp. cbn [prefixb append] in Hp.
-    change (render ["B"; "r"; "lib2"]) with "/B/r/lib2" in Hp.
-    cbn [subdir tsubs ex_tree find_child tname] in Hd.
-    destruct (String.eqb_spec a "lib") as [->|N1].
-    { destruct rel as [|b rel]; [vm_compute in Hp; discriminate|].
-      cbn in Hp. vm_compute in Hp.
-      cbn [subdir tsubs find_child tname] in Hd.
-      destruct (String.eqb_spec b "tests") as [->|M1]; [vm_compute in Hp; discriminate|].
-      destruct (String.eqb_spec b "sub") as [->|M2]; [vm_compute in Hp; discriminate|discriminate]. }
-    destruct (String.eqb_spec a "lib2") as [->|N2]; [reflexivity|].
-    destruct (String.eqb_spec a "pkg") as [->|N3].
-    { destruct rel; [vm_compute in Hp; discriminate|]. cbn in Hd. discriminate. }
-    destruct (String.eqb_spec a "build") as [->|N4]; [|discriminate].
-    destruct rel as [|b rel]; [vm_compute in Hp; discriminate|]. vm_compute in Hp. discriminate.
-  - reflexivity.
+  - split; repeat constructor; cbn; intuition discriminate.
 Qed.
 
 Example ex_schedule :
@@ -1015,38 +1117,13 @@ Proof.
   apply (Permutation_rev [_; _; _; _]).
 Qed.
 
-(* ---- the guards are decidable: the boolean versions computed by the model ------------------ *)
-Lemma all_rels_complete : forall rel t d, rel <> [] -> subdir t rel = Some d -> In rel (all_rels t).
-Proof.
-  induction rel as [|x r IH]; intros t d Hne Hd; [congruence|].
-  destruct t as [n f subs]. cbn [subdir tsubs] in Hd. cbn [all_rels].
-  destruct (find_child x subs) as [c|] eqn:Ec; [|discriminate].
-  apply find_child_in in Ec as [Hin <-]. apply in_flat_map. exists c. split; [exact Hin|].
-  destruct r as [|y r]; [left; reflexivity|]. right. apply in_map. eapply IH; [discriminate|exact Hd].
-Qed.
-
-Lemma alignedb_aligned ecs bc t : alignedb ecs bc t = true -> aligned ecs bc t.
-Proof.
-  unfold alignedb, aligned. rewrite forallb_forall. intros H ec rel d Hec Hne Hd Hp.
-  specialize (H rel (all_rels_complete rel t d Hne Hd)). rewrite forallb_forall in H.
-  specialize (H ec Hec). rewrite Hp in H. exact H.
-Qed.
-
+(* ---- root_guard in the computed form the extracted model evaluates on every T2 case --------- *)
 Lemma root_guardb_root_guard ecs user bc t :
   root_guardb ecs user bc t = root_guard ecs (all_markers user) bc t.
 Proof. reflexivity. Qed.
 
-Theorem discover_exact_partial_dec ecs user bc t p :
-  wf t -> root_guardb ecs user bc t = true -> alignedb ecs bc t = true ->
-  (In p (walk_paths (render bc) t (map render ecs) user) <->
-   exists rel, p = render (bc ++ rel) /\ is_root (comp_excluded ecs) (all_markers user) bc t rel).
-Proof.
-  intros Hwf Hg Ha. apply discover_exact_partial; [exact Hwf|exact Hg|apply alignedb_aligned; exact Ha].
-Qed.
-
 Example ex_guards_dec :
   root_guardb [["B"; "r"; "lib2"]] ["SKIP"] ["B"; "r"] ex_tree = true /\
-  alignedb [["B"; "r"; "lib2"]] ["B"; "r"] ex_tree = true /\
-  alignedb [["B"; "r"; "lib"]] ["B"; "r"] ex_tree = false /\
-  root_guardb [] ["MARK"; "SKIP"] ["B"; "r"] w_mark1 = false.
+  root_guardb [] ["MARK"; "SKIP"] ["B"; "r"] w_mark1 = false /\
+  root_guardb [["B"]] ["MARK"; "SKIP"] ["B"; "r"] w_mark1 = true.
 Proof. repeat split; reflexivity. Qed.
